@@ -274,6 +274,9 @@ func TestC09Burst(t *testing.T) {
 			if thorough() && i%3 == 0 {
 				k = 8 + r.Intn(6)
 			}
+			if !thorough() && i == 3 {
+				k = 12 // one long queue in the quick tier too: the last search begins seven seconds after its DISCOVER arrived
+			}
 			pool := k + r.Intn(3)
 			if i%5 == 4 {
 				pool = k - 1 // more clients than addresses: exactly pool OFFERs
